@@ -241,6 +241,13 @@ class Model:
         ok = self.settle(n, ctx, s, why, forced)
         if ok is not None:
             return ok
+        if ctx.get('start') is not None and n in ctx['obs'] and n not in ctx['ran'] and n in ctx['start'].R and ctx['start'].R[n].built \
+                and ctx['start'].rounds_needed(n) >= 2:
+            # Parallel command: n was judged while two nested levels of checksummed targets below it were still
+            # undecided.  After one out-of-band round redo runs n itself (as in the serial case, see settle());
+            # in this model's sequential order a sibling had settled the lower level first.  Order-dependent: may-run.
+            ctx['maybe'].add(n)
+            return self.run_script(n, ctx, 'unsettled-parallel:' + str(why))
         # settled clean: an extra edge may still have changed while settling
         trig = self.extra_trigger(n, ctx)
         if trig and ctx['obs'] is not None and n in ctx['obs'] and n not in ctx['ran']:
@@ -425,11 +432,29 @@ class Model:
         return dict(ran=[], done={}, keep=keep, obs=obs, reasons={}, ambiguous=set(), maybe=set(),
                     notrun_failed=set(), late=set(), stack=[], extra_new={}, why_list=[], rechecked=set(), absorbed=set())
 
-    def command(self, targets, forced=False, keep=False, obs=None, obsn=None):
+    def rounds_needed(self, n):
+        """Pure: how many out-of-band rounds it takes, from the present state, until n can be judged."""
+        m = self.copy()
+        c = m.new_ctx(keep=True)
+        s, why = m.status(n, c, {})
+        rounds = 0
+        while s == 'uncertain' and rounds < 6:
+            tops = m.topmost(n, c, {}, [])
+            if not tops:
+                break
+            rounds += 1
+            for d in tops:
+                m.update(d, c)
+            s, why = m.status(n, c, {})
+        return rounds
+
+    def command(self, targets, forced=False, keep=False, obs=None, obsn=None, parallel=False):
         """One top-level `redo-ifchange targets...` (or `redo` when forced).  Returns (ok, ctx)."""
+        start = self.copy() if (parallel and obs is not None) else None
         self.run += 1
         ctx = self.new_ctx(keep, obs)
         ctx['obsn'] = obsn
+        ctx['start'] = start
         self.cur_ctx = ctx
         allok = True
         failed_known = False
